@@ -297,7 +297,9 @@ impl PayloadHistory {
 
     /// Pushes a new delta to the history
     fn push_delta(&mut self, delta: PayloadDelta) {
-        if self.deltas.len() == self.keep {
+        // Always keep at least one delta: a history size of zero must not
+        // switch off eviction altogether.
+        while self.deltas.len() >= cmp::max(self.keep, 1) {
             let _ = self.deltas.pop_back();
         }
         self.deltas.push_front(Arc::new(delta))
